@@ -135,6 +135,9 @@ theorem gen_growCap_eq (cap n : Nat) :
 /-- **save_context / restore_context** carry command_giver -/
 theorem gen_ctxSaveRestore_eq : NV.Gen.C11.ctxSaveRestore = [1, 1] := rfl
 
+/-- **efun wrappers**: query_heart_beat(ob) asks about its argument, heart_beats() returns get_heart_beats () -/
+theorem gen_efunWrappers_eq : NV.Gen.C11.efunWrappers = [1, 1] := rfl
+
 /-- **heart_beats()** answers the list in reverse order -/
 theorem gen_heartBeatsReversed_eq : NV.Gen.C11.heartBeatsReversed = true := rfl
 
